@@ -34,6 +34,8 @@ namespace Book
 
 @[simp] theorem opp_opp (sd : Side) : sd.opp.opp = sd := by cases sd <;> rfl
 theorem opp_ne (sd : Side) : sd.opp ≠ sd := by cases sd <;> simp [Side.opp]
+theorem eq_opp_of_ne {a b : Side} (h : a ≠ b) : a = b.opp := by
+  cases a <;> cases b <;> first | rfl | exact absurd rfl h
 
 theorem side_setSide_of_ne (b : Book) (sd sd' : Side) (s : SideS) (h : sd' ≠ sd) :
     (b.setSide sd s).side sd' = b.side sd' := by
